@@ -139,7 +139,8 @@ def check(ctx):
             for fld in v["fields"]:
                 if (t.split("::")[-1], fld["name"]) in NOT_ARCHIVED_FIELDS:
                     continue
-                for cand in re.findall(r"[A-Za-z_][A-Za-z0-9_]*(?:::[A-Za-z_][A-Za-z0-9_]*)+", fld["ty"]):
+                ty = re.sub(r"air_interpreter_cid::CID<[^<>]*>", "air_interpreter_cid::CID", fld["ty"])   # CID<T> holds a string; T is a phantom tag
+                for cand in re.findall(r"[A-Za-z_][A-Za-z0-9_]*(?:::[A-Za-z_][A-Za-z0-9_]*)+", ty):
                     if cand in names and cand not in closure:
                         todo.append(cand)
     arch = {im["self"].split("<")[0] for im in F.impls if (im.get("trait_def") or "") == "rkyv::Archive"}
